@@ -8,15 +8,16 @@
    COMPLETENESS (the stream is the per-operation contracts, block by block up to collapse: C03_contract_sequential) and
    SOUNDNESS (sound_along holds: C03_sound_pipeline_sequential).  The pinned refutations (F10, F10e) and their _repaired twins.
    The same with PARTIAL READS: every block's records split arbitrarily between several ARead steps (C03_contract_cuts,
-   C03_sound_pipeline_cuts; no operation and no tick between the reads of a block).
-   STATED ONLY: C03_sound_full_current - soundness over ALL interleavings: bursts of operations before a read, ticks between
-   the reads of a block. *)
+   C03_sound_pipeline_cuts), and with LOOSE TIMING after the reads: any ticks and queue_events calls before the final delay
+   (C03_contract_loose).  No operation, tick or queue_events call between the reads of a block.
+   STATED ONLY: C03_sound_full_current - soundness over ALL interleavings: bursts of operations before the previous block is
+   drained, ticks / queue_events between the reads of a block. *)
 Require Import WD.Base.Prelude WD.Base.BStr WD.Model.SubEvents WD.Model.Emitter WD.Model.Fs WD.Model.Reader
                WD.Model.DelayQueue WD.Model.Grouping WD.Model.Pipeline WD.Model.Contract.
 Require Import WD.Proofs.ContractProofs WD.Proofs.TieProofs WD.Proofs.MoveOutProofs WD.Proofs.CoverProofs WD.Proofs.ReplaceProofs
                WD.Proofs.CoverOutProofs WD.Proofs.ReplayProofs WD.Proofs.ReplayOutProofs WD.Proofs.SoundSeqProofs
                WD.Proofs.ReplayPipeProofs WD.Proofs.SoundPipeProofs
-               WD.Proofs.CutsProofs WD.Proofs.CutsPipeProofs WD.Proofs.SoundCutsProofs.
+               WD.Proofs.CutsProofs WD.Proofs.CutsPipeProofs WD.Proofs.SoundCutsProofs WD.Proofs.SoundLooseProofs.
 
 (* ================================================================== soundness: shape of what [emit] produces *)
 (* Hold for every item, every configuration, every content oracle - no hypothesis. *)
@@ -523,6 +524,34 @@ Theorem C03_contract_cuts : forall P ct ops w s0, let C := pc_reader P in
 Proof. exact contract_pipeline_cuts. Qed.
 Print Assumptions C03_contract_cuts.
 
+(* ================================================================== the pairing delay *)
+(* Between the last read of a block and the final "ATick delay; AEmit ..." ANY sequence of ATick and AEmit steps may happen
+   ([loose_history]: AOp; the cut reads; L; ATick delay; AEmit x nit with L chosen by the timer [lt]): the delay in several
+   parts, queue_events called before the delay of a lone IN_MOVED_FROM has elapsed (nothing is delivered: the state is
+   unchanged), items delivered early.  Stream, soundness and completeness are those of the one-read block.  Still excluded by
+   the shape: a tick or queue_events call BETWEEN the reads of a block, and operations before the block is drained. *)
+Theorem C03_blocks_sound_loose : forall P ct lt, let C := pc_reader P in
+  c_faults C = [] -> c_fix_moveout C = true -> c_mask C = WATCHDOG_ALL -> pc_filter P = None ->
+  sum_cutter P ct -> loose_timer lt ->
+  forall ops s hot recs, PSx P s hot -> ops_x3 C (p_world s) hot ops ->
+  exists h s' obs hot' chunks, loose_hist P ct lt s ops h /\ prun P s h [] = Done (s', obs) /\ PSx P s' hot' /\
+    sound_along P s recs h = true /\
+    p_out s' = p_out s ++ concat chunks /\
+    Forall2 (fun ch ct0 => collapse ch = collapse ct0) chunks (contracts_of C (pc_full P) (p_world s) ops).
+Proof. exact blocks_sound_loose. Qed.
+Print Assumptions C03_blocks_sound_loose.
+
+Theorem C03_contract_loose : forall P ct lt ops w s0, let C := pc_reader P in
+  c_faults C = [] -> c_fix_moveout C = true -> c_mask C = WATCHDOG_ALL -> pc_filter P = None ->
+  sum_cutter P ct -> loose_timer lt -> wf_fs w ->
+  fisdir (c_root C) (w_fs w) = true -> pinit P w = Some s0 -> ops_x3 C w None ops ->
+  exists h s' obs chunks, loose_hist P ct lt s0 ops h /\ prun P s0 h [] = Done (s', obs) /\
+    sound_along P s0 [] h = true /\
+    p_out s' = concat chunks /\
+    Forall2 (fun ch ct0 => collapse ch = collapse ct0) chunks (contracts_of C (pc_full P) w ops).
+Proof. exact contract_pipeline_loose. Qed.
+Print Assumptions C03_contract_loose.
+
 (* ================================================================== tie to the Pipeline model *)
 (* [deliver_one] is what the Pipeline model (validated in lock-step against the real observer) delivers for
    AOp o; ARead (whole kernel queue); ATick delay; AEmit x nit, from any state whose buffer is idle (nothing queued,
@@ -745,3 +774,12 @@ Example C03_pipeline_cuts_nonvacuous :
     run_blocks phx_P 4 s0 seq3_ops = Some s1 /\ p_out s = p_out s1 /\ length (p_out s) = 18%nat /\
     collapse (p_out s) = collapse (concat (contracts_of (cfgo true) false w0 seq3_ops)).
 Proof. split; [exact (first_cutter_sum phx_P) | split; [exact seq3_ops_x3 | exact seq3_cuts_run]]. Qed.
+
+(* C03_contract_loose: the history and cutter of C03_pipeline_cuts_nonvacuous with the timer AEmit; ATick 2; AEmit; AEmit;
+   ATick 2; AEmit between the reads and the final ATick 5 (queue_events before any time has passed, the delay as 2+2+5):
+   the same 18 events *)
+Example C03_pipeline_loose_nonvacuous :
+  loose_timer early_timer /\ sum_cutter phx_P first_cutter /\
+  exists s0 s s1, pinit phx_P w0 = Some s0 /\ run_loose phx_P first_cutter early_timer 4 s0 seq3_ops = Some s /\
+    run_blocks phx_P 4 s0 seq3_ops = Some s1 /\ p_out s = p_out s1 /\ length (p_out s) = 18%nat.
+Proof. split; [exact early_timer_ok | split; [exact (first_cutter_sum phx_P) | exact seq3_loose_run]]. Qed.
